@@ -351,6 +351,60 @@ impl<E: Engine> RateDecoder<E> for DefaultRateDecoder<E> {
 }
 
 // ======================================================================
+// verification builds
+
+#[cfg(feature = "verif-hooks")]
+impl<E: Engine> DefaultRateEncoder<E> {
+    /// Working space (read-only); `None` only while the inner codec is absent.
+    pub fn verif_work(&self) -> Option<&EncoderWork> {
+        match &self.0 {
+            InnerEncoder::High(high) => Some(high.verif_work()),
+            InnerEncoder::Low(low) => Some(low.verif_work()),
+            InnerEncoder::None => None,
+        }
+    }
+
+    /// `Some(true)` when the inner codec is the high-rate one.
+    pub fn verif_is_high(&self) -> Option<bool> {
+        match &self.0 {
+            InnerEncoder::High(_) => Some(true),
+            InnerEncoder::Low(_) => Some(false),
+            InnerEncoder::None => None,
+        }
+    }
+}
+
+#[cfg(feature = "verif-hooks")]
+impl<E: Engine> DefaultRateDecoder<E> {
+    /// Working space (read-only); `None` only while the inner codec is absent.
+    pub fn verif_work(&self) -> Option<&DecoderWork> {
+        match &self.0 {
+            InnerDecoder::High(high) => Some(high.verif_work()),
+            InnerDecoder::Low(low) => Some(low.verif_work()),
+            InnerDecoder::None => None,
+        }
+    }
+
+    /// `Some(true)` when the inner codec is the high-rate one.
+    pub fn verif_is_high(&self) -> Option<bool> {
+        match &self.0 {
+            InnerDecoder::High(_) => Some(true),
+            InnerDecoder::Low(_) => Some(false),
+            InnerDecoder::None => None,
+        }
+    }
+}
+
+/// Crate-private rate selection rule.
+#[cfg(feature = "verif-hooks")]
+pub(crate) fn verif_use_high_rate(
+    original_count: usize,
+    recovery_count: usize,
+) -> Result<bool, Error> {
+    use_high_rate(original_count, recovery_count)
+}
+
+// ======================================================================
 // TESTS
 
 #[cfg(test)]
